@@ -41,6 +41,9 @@ pub enum TabOp {
     /// the documented self-reference protocol in one step: read
     /// `next_type_id()`, register a (disciplined) value that also refers to it
     RegisterSelfRef(u8),
+    /// register `n` tiny distinct values (array types whose length is a counter),
+    /// to take the table across size thresholds (256, 2^14, ...)
+    RegisterBurst(u32),
 }
 
 #[derive(Clone, PartialEq, Eq, Debug, Hash, Serialize, Deserialize)]
@@ -78,7 +81,7 @@ pub struct TabScenario {
 
 pub fn gen_id(rng: &mut Rng, near: u32, big: u32) -> u32 {
     if rng.permille(big) {
-        return *rng.pick(&[63u32, 64, 16383, 16384, (1 << 30) - 1, 1 << 30, u32::MAX - 1, u32::MAX]);
+        return *rng.pick(&[63u32, 64, 16383, 16384, (1 << 30) - 1, 1 << 30, 0x6000_0000, (1 << 31) - 1, 1 << 31, (1 << 31) + 1, 0xC000_0000, u32::MAX - 1, u32::MAX]);
     }
     rng.below(near as u64 + 1) as u32
 }
@@ -159,6 +162,109 @@ pub fn gen_bulk_ptype(rng: &mut Rng, near: u32) -> PType {
     t
 }
 
+/// One small edit that makes a near-copy: equal to the original except for
+/// one detail somewhere inside, so that "equal value" has to be decided on the
+/// whole value (every string, every option, every id, the order of members).
+fn micro_edit(rng: &mut Rng, cfg: &TabCfg, near: u32, t: &mut PType) {
+    let flip_opt = |o: &mut Option<String>| {
+        *o = match o.take() {
+            None => Some(String::new()),
+            Some(s) if s.is_empty() => None,
+            Some(_) => Some(String::new()),
+        }
+    };
+    let bump = |x: &mut u32, rng: &mut Rng| {
+        *x = match rng.below(4) {
+            0 => x.wrapping_add(1),
+            1 => x.wrapping_add(1 << 31),
+            2 => x.wrapping_add(0x6000_0000),
+            _ => x.wrapping_sub(1),
+        }
+    };
+    // collect the fields reachable for an edit
+    let mut fields: Vec<&mut PField> = Vec::new();
+    let mut variants_len = 0;
+    match &mut t.def {
+        PDef::Composite(fs) => fields.extend(fs.iter_mut()),
+        PDef::Variant(vs) => {
+            variants_len = vs.len();
+            for v in vs.iter_mut() {
+                fields.extend(v.fields.iter_mut());
+            }
+        }
+        _ => {}
+    }
+    let choice = rng.below(16);
+    if !fields.is_empty() && choice < 6 {
+        let k = rng.usize_below(fields.len());
+        let f = &mut fields[k];
+        match choice {
+            0 => flip_opt(&mut f.name),
+            1 => flip_opt(&mut f.type_name),
+            2 => f.docs.push(text(rng, &cfg.strs)),
+            3 => bump(&mut f.ty, rng),
+            4 => f.name = Some(text(rng, &cfg.strs)),
+            _ => f.type_name = Some(text(rng, &cfg.strs)),
+        }
+        return;
+    }
+    drop(fields);
+    if variants_len > 0 && choice < 11 {
+        if let PDef::Variant(vs) = &mut t.def {
+            let k = rng.usize_below(vs.len());
+            match choice {
+                6 => vs[k].docs.push(text(rng, &cfg.strs)),
+                7 => vs[k].index = vs[k].index.wrapping_add(1),
+                8 => vs[k].name.push('_'),
+                9 if vs.len() >= 2 => {
+                    // the same variants in another order
+                    let j = (k + 1) % vs.len();
+                    vs.swap(k, j);
+                }
+                _ => vs[k].fields.push(PField { name: None, ty: 0, type_name: None, docs: vec![] }),
+            }
+        }
+        return;
+    }
+    match rng.below(9) {
+        0 => t.docs.push(text(rng, &cfg.strs)),
+        1 => t.path.push(text(rng, &cfg.strs)),
+        // the original path becomes a proper suffix / the empty path
+        2 => t.path.insert(0, text(rng, &cfg.strs)),
+        3 => t.path.clear(),
+        // same name and parameters, another definition
+        4 => t.def = gen_ptype(rng, &cfg.strs, near, cfg.big_ids).def,
+        5 => {
+            if let Some(p) = t.params.first_mut() {
+                p.1 = match p.1 {
+                    Some(x) => Some(x.wrapping_add(1)),
+                    None => Some(0),
+                };
+            } else {
+                t.params.push((text(rng, &cfg.strs), Some(0)));
+            }
+        }
+        6 => match &mut t.def {
+            PDef::Sequence(x) | PDef::Compact(x) | PDef::Array(_, x) => bump(x, rng),
+            PDef::BitSeq(a, b) => std::mem::swap(a, b),
+            PDef::Tuple(ts) if !ts.is_empty() => {
+                let k = rng.usize_below(ts.len());
+                bump(&mut ts[k], rng)
+            }
+            PDef::Primitive(p) => *p = (*p + 1) % 15,
+            _ => t.docs.push(String::new()),
+        },
+        7 => {
+            if let PDef::Array(n, _) = &mut t.def {
+                *n = n.wrapping_add(1);
+            } else {
+                t.docs.insert(0, String::new());
+            }
+        }
+        _ => t.params.push((text(rng, &cfg.strs), None)),
+    }
+}
+
 pub fn generate(rng: &mut Rng) -> TabScenario {
     let cfg = TabCfg {
         pool_size: *rng.pick(&[1u8, 2, 3, 5, 8, 16, 40]),
@@ -178,30 +284,9 @@ pub fn generate(rng: &mut Rng) -> TabScenario {
     for _ in 0..cfg.pool_size {
         // some pool members are near-copies of each other: equal except for
         // one detail, so that "equal value" is decided on the whole value
-        if !pool_v.is_empty() && rng.permille(250) {
+        if !pool_v.is_empty() && rng.permille(400) {
             let mut t = rng.pick(&pool_v).clone();
-            match rng.below(7) {
-                0 => t.docs.push(text(rng, &cfg.strs)),
-                1 => t.path.push(text(rng, &cfg.strs)),
-                // the original path becomes a proper suffix / the empty path
-                2 => t.path.insert(0, text(rng, &cfg.strs)),
-                3 => t.path.clear(),
-                4 => {
-                    // same name and parameters, another definition
-                    t.def = gen_ptype(rng, &cfg.strs, near, cfg.big_ids).def;
-                }
-                5 => {
-                    if let Some(p) = t.params.first_mut() {
-                        p.1 = match p.1 {
-                            Some(x) => Some(x.wrapping_add(1)),
-                            None => Some(0),
-                        };
-                    } else {
-                        t.params.push((text(rng, &cfg.strs), Some(0)));
-                    }
-                }
-                _ => t.params.push((text(rng, &cfg.strs), None)),
-            }
+            micro_edit(rng, &cfg, near, &mut t);
             pool_v.push(t);
         } else {
             pool_v.push(gen_ptype(rng, &cfg.strs, near, cfg.big_ids));
@@ -244,6 +329,18 @@ pub fn generate(rng: &mut Rng) -> TabScenario {
             ops.push((client, TabOp::Finish));
         }
     }
+    // a few runs take the table across size thresholds: bursts of tiny values
+    // in the middle of the script, then the script goes on (duplicates, get,
+    // self-references and finish on a large table)
+    if rng.permille(30) {
+        let n = *rng.pick(&[200u32, 300, 300, 1100, 1100, 1100, 20000]);
+        let at = rng.usize_below(ops.len() + 1);
+        ops.insert(at, (0, TabOp::RegisterBurst(n)));
+        if rng.permille(500) {
+            let at2 = rng.usize_below(ops.len() + 1);
+            ops.insert(at2, (0, TabOp::RegisterBurst(rng.range(1, 300) as u32)));
+        }
+    }
     ops.push((0, TabOp::Finish));
     let interner_kind = rng.below(4) as u8;
     let n_iops = rng.range(1, cfg.ops as u64);
@@ -284,20 +381,30 @@ pub struct TabResult {
 /// The reference model: a list without duplicates.
 struct Model<T> {
     v: Vec<T>,
+    /// acceleration only: positions by hash, so that tables with tens of
+    /// thousands of values stay cheap; the answer is still "the first equal
+    /// element of the list"
+    by_hash: std::collections::BTreeMap<u64, Vec<usize>>,
+    hasher: fn(&T) -> u64,
 }
 
 impl<T: PartialEq + Clone> Model<T> {
+    fn new(hasher: fn(&T) -> u64) -> Self {
+        Model { v: Vec::new(), by_hash: Default::default(), hasher }
+    }
     fn insert(&mut self, x: &T) -> (bool, usize) {
-        match self.v.iter().position(|y| y == x) {
+        match self.find(x) {
             Some(i) => (false, i),
             None => {
                 self.v.push(x.clone());
-                (true, self.v.len() - 1)
+                let i = self.v.len() - 1;
+                self.by_hash.entry((self.hasher)(x)).or_default().push(i);
+                (true, i)
             }
         }
     }
     fn find(&self, x: &T) -> Option<usize> {
-        self.v.iter().position(|y| y == x)
+        self.by_hash.get(&(self.hasher)(x))?.iter().copied().find(|&i| self.v[i] == *x)
     }
 }
 
@@ -322,11 +429,12 @@ fn with_announced(base: &PType, announced: u32) -> PType {
 
 fn run_builder(scn: &TabScenario, mask: Mask, res: &mut TabResult) -> Check {
     let mut b = PortableRegistryBuilder::new();
-    let mut model: Model<PType> = Model { v: Vec::new() };
+    let mut model: Model<PType> = Model::new(|t| hash_of(t));
     let mut announced = vec![None::<u32>; 256];
     let mut dup_after_unrelated = false;
     // ids the builder has returned so far (disciplined runs)
     let mut handed: Vec<u32> = Vec::new();
+    let mut burst: u32 = 1_000_000;
     for (k, (client, op)) in scn.ops.iter().enumerate() {
         probe("events.builder_call");
         let mut register = |b: &mut PortableRegistryBuilder,
@@ -437,6 +545,28 @@ fn run_builder(scn: &TabScenario, mask: Mask, res: &mut TabResult) -> Check {
                     handed.push(id);
                 }
             }
+            TabOp::RegisterBurst(n) => {
+                for j in 0..*n {
+                    burst += 1;
+                    let v = PType {
+                        path: vec![],
+                        params: vec![],
+                        def: PDef::Array(if j % 7 == 3 { burst.wrapping_sub(1) } else { burst }, 0),
+                        docs: vec![],
+                    };
+                    register(&mut b, &mut model, &v, "burst")?;
+                }
+                crate::core::probe_max("max.builder_table_entries", model.v.len() as u64);
+                for t in [256usize, 1000, 16384] {
+                    if model.v.len() > t {
+                        probe(match t {
+                            256 => "reach.builder_table_above_256",
+                            1000 => "reach.builder_table_above_1000",
+                            _ => "reach.builder_table_above_16384",
+                        });
+                    }
+                }
+            }
             TabOp::Get(id) => {
                 let got = b.get(*id).map(PType::from_lib);
                 let want = model.v.get(*id as usize).cloned();
@@ -506,17 +636,18 @@ fn run_interner<T: Ord + Clone + std::fmt::Debug>(
     values: &[T],
     ops: &[IntOp],
     mask: Mask,
+    hasher: fn(&T) -> u64,
 ) -> Check {
     // the donor knows every pool value, value k at symbol k (as far as the
     // pool is itself duplicate-free; equal pool values share the first index)
     let mut donor: Interner<T> = Interner::new();
-    let mut donor_model: Model<T> = Model { v: Vec::new() };
+    let mut donor_model: Model<T> = Model::new(hasher);
     for v in values {
         donor.intern_or_get(v.clone());
         donor_model.insert(v);
     }
     let mut it: Interner<T> = Interner::new();
-    let mut model: Model<T> = Model { v: Vec::new() };
+    let mut model: Model<T> = Model::new(hasher);
     for (k, op) in ops.iter().enumerate() {
         probe("events.interner_call");
         match op {
@@ -737,7 +868,7 @@ pub fn execute(scn: &TabScenario, mask: Mask) -> Result<TabResult, Violation> {
         match scn.interner_kind {
             0 => {
                 let vals: Vec<u8> = (0..scn.pool.len()).map(|i| (i * 37 % 11) as u8).collect();
-                run_interner(&vals, &scn.interner_ops, mask)
+                run_interner(&vals, &scn.interner_ops, mask, |x| *x as u64)
             }
             1 => {
                 let vals: Vec<String> = scn
@@ -745,11 +876,11 @@ pub fn execute(scn: &TabScenario, mask: Mask) -> Result<TabResult, Violation> {
                     .iter()
                     .map(|t| t.path.first().cloned().unwrap_or_default())
                     .collect();
-                run_interner(&vals, &scn.interner_ops, mask)
+                run_interner(&vals, &scn.interner_ops, mask, |x| hash_of(x))
             }
             2 => {
                 let vals: Vec<_> = scn.pool.iter().map(|t| t.to_lib()).collect();
-                run_interner(&vals, &scn.interner_ops, mask)
+                run_interner(&vals, &scn.interner_ops, mask, |x| hash_of(&PType::from_lib(x)))
             }
             _ => run_interner_faulted(scn, mask),
         }
